@@ -172,6 +172,10 @@ func (t *Type) ParamName() string {
 
 // String returns a human-readable version of the Type.
 func (t *Type) String() string {
+	if t == nil {
+		// element type missing ("list" written without "<...>")
+		return "?"
+	}
 	switch t.Name {
 	case "map":
 		return fmt.Sprintf("map<%s,%s>", t.KeyType.String(), t.ValueType.String())
@@ -1296,6 +1300,12 @@ func (f *Frugal) validateStructLike(s *Struct) error {
 }
 
 func (f *Frugal) isValidType(typ *Type) bool {
+	// A container keyword written without its element types ("set" instead
+	// of "set<i32>") parses as a type without key/value types.
+	if typ == nil {
+		return false
+	}
+
 	// Check base types
 	if typ.IsPrimitive() {
 		return true
